@@ -43,7 +43,7 @@ def strategy(tier):
         st.tuples(st.just('conflict_commit')),
         st.tuples(st.just('savepoint')), st.tuples(st.just('savepoint')),
         st.tuples(st.just('rollback'), st.integers(0, 3)),
-        st.tuples(st.just('undo'), st.integers(0, 3)),
+        st.tuples(st.just('undo'), st.integers(0, 7)),
         st.tuples(st.just('undo2')),
         st.tuples(st.just('pack'), st.integers(0, 8)),
         st.tuples(st.just('read'), i),
@@ -645,6 +645,23 @@ class BlobWorld:
                 return
         before = dict(self.committed)
         # expected content: what each blob held just before the undone transaction
+        if j >= 4 and not both:
+            # the undo transaction does not commit: another participant refuses at the vote, after the storage has
+            # written the undo records and put the restored blob files in place - nothing of it remains
+            files_before = set(list_blob_files(self.blob_dir))
+            self.db.undo(e['id'], self.tm.get())
+            self.tm.get().join(FailingRM('tpc_vote', 'after'))
+            try:
+                self.tm.commit()
+            except (FailingRM.Boom, UndoError):
+                pass
+            else:
+                self.fail('fail-commit', 'not-raised', 'undo transaction with a failing participant did not raise')
+                return
+            self.tm.abort()
+            self.labels.add('undo-transaction-aborted-after-undo')
+            self.after_abort('undo transaction aborted at the vote', files_before)
+            return
         try:
             if both:
                 self.db.undoMultiple([x['id'] for x in log[:2]], self.tm.get())
